@@ -102,10 +102,10 @@ def export(mp, sites, what):
 
 
 def leak(mp, charges, q):
-    """(norm of the amplitudes outside sector q) / max(1, norm)"""
+    """(norm of the amplitudes outside sector q) / norm (purely relative)"""
     v = G.dense_state(mp) * mp.coeff
     out = np.any(charges != np.array(q), axis=1)
-    return float(np.linalg.norm(v[out]) / max(1.0, np.linalg.norm(v))), float(np.linalg.norm(v))
+    return float(np.linalg.norm(v[out]) / (np.linalg.norm(v) or 1.0)), float(np.linalg.norm(v))
 
 
 def trunc_config(rng_choice):
@@ -274,13 +274,13 @@ def run_case(case_seed, exports, fails, stats):
                     follow = rng.choice(["left", "right"])
                     getattr(f2, "ensure_%s_canonical" % follow)()
                     f2.compress()
-                    err = float(np.linalg.norm(G.dense_state(f2) * f2.coeff - ref) / max(1.0, np.linalg.norm(ref)))
+                    err = float(np.linalg.norm(G.dense_state(f2) * f2.coeff - ref) / (np.linalg.norm(ref) or 1.0))
                     stats["checks"] = stats.get("checks", 0) + 1
                     if not err <= 1e-9:
                         fails.append({"key": "partial_cano:dense-after-followup",
                                       "detail": {"stop_idx": k, "to_right": to_right, "nsite": nsite, "rel_err": err, "qnidx_after": int(pc.qnidx), "to_right_after": bool(pc.to_right)},
                                       "repro": PRELUDE + "\n".join(lines) + "\nref = G.dense_state(x) * x.coeff\nf2 = p.copy(); f2.compress_config = N.trunc_config(('fixed', 4096)); f2.ensure_%s_canonical(); f2.compress()\n"
-                                               "err = float(np.linalg.norm(G.dense_state(f2) * f2.coeff - ref) / max(1.0, np.linalg.norm(ref)))\nprint('relative error after canonicalise(stop_idx=%d) + ensure_%s_canonical + compress:', err)\nsys.exit(1 if not err <= 1e-9 else 0)\n"
+                                               "err = float(np.linalg.norm(G.dense_state(f2) * f2.coeff - ref) / (np.linalg.norm(ref) or 1.0))\nprint('relative error after canonicalise(stop_idx=%d) + ensure_%s_canonical + compress:', err)\nsys.exit(1 if not err <= 1e-9 else 0)\n"
                                                % (follow, k, follow),
                                       "case_seed": case_seed})
                         return False
